@@ -3,17 +3,32 @@ SPEC = {
     "components": [
         {"comp": "varint", "module": "QV.Model.Varint", "quick": 1500, "thorough": 40000},
         {"comp": "pn", "module": "QV.Model.PacketNumber", "quick": 1500, "thorough": 40000},
+        {"comp": "frames", "module": "QV.Model.Frames", "quick": 1500, "thorough": 30000},
+        {"comp": "header", "module": "QV.Model.Header", "quick": 1000, "thorough": 20000},
+        {"comp": "tparams", "module": "QV.Model.TParams", "quick": 800, "thorough": 15000},
+        {"comp": "token", "module": "QV.Model.Token", "quick": 800, "thorough": 15000},
     ],
     "assumptions": [
         "masks/shifts are modelled arithmetically; the equivalence with the bit-level Rust code is checked by the correspondence on all boundary classes, not proved",
+        "packet headers are the plaintext headers: header protection is the identity (hook-supplied HeaderKey) and no AEAD is applied",
+        "token codec: the AEAD is a Section variable of the theorem with the single hypothesis open n (seal n x) = Some x; the correspondence runs under a transparent toy AEAD supplied by the hook",
+        "frames that quinn encodes inline (PING, MAX_*, *_BLOCKED, RETIRE_CONNECTION_ID, PATH_*, HANDSHAKE_DONE, IMMEDIATE_ACK) have no encoder function; the hook writes them with the same write(FrameType::X)/write_var calls",
     ],
 }
 
 MANIFEST = {
     "text": ("Round-trip and totality of the wire codecs are proved in Coq for all values (unbounded, by proof): "
-             "varint encode/decode/size, packet-number truncation and RFC 9000 A.3 expansion for every sender/receiver "
-             "state in the window. The models are hand-written and tied to the Rust code on every run by differential "
-             "correspondence (same op sequences through the real codec and the model, evaluated by vm_compute)."),
+             "varint encode/decode/size; packet-number truncation and RFC 9000 A.3 expansion for every sender/receiver state in the window; "
+             "every frame type through frame::Iter (frame_roundtrip, STREAM/DATAGRAM with and without length, CLOSE with reason truncation and "
+             "the bound |encoding| <= max_len, whole payloads), Ack::encode over a range set vs scan_ack_blocks/AckIter (ack_ranges_roundtrip), "
+             "decoder totality on arbitrary bytes with bounds, no u64 overflow, no fuel exhaustion, AckIter safe after scan (ack_iter_safe); "
+             "packet headers Initial/Handshake/0-RTT/Retry/Short/VersionNegotiate (header_roundtrip) and the coalescing split at exactly the "
+             "encoded Length (coalesced_split_exact); transport parameters read(write p) = p for every valid p in any write order "
+             "(tparams_roundtrip) and totality of read; connection IDs in long form; the token payload codec under an abstract AEAD. "
+             "The models are hand-written and tied to the Rust code on every run by differential correspondence (same op sequences "
+             "through the real codec and the model, evaluated by vm_compute), with an oracle stating the round trip on the implementation's own outputs."),
     "note": ("Trusted: Coq kernel + vm_compute; hand-written models (bit operations modelled arithmetically) whose agreement "
-             "with the code is sampled, not proved; hook interpreters; python driver. No axioms."),
+             "with the code is sampled, not proved; hook interpreters; python driver. No axioms. Not modelled: header protection and AEAD bytes, "
+             "HashedConnectionIdGenerator, PartialEncode::finish's crypto, frame encoders that live inline in connection/mod.rs and streams/state.rs "
+             "(mirrored in the hook). The model of Close::encode follows the repaired code (fix: commit in the repository worktree)."),
 }
